@@ -627,3 +627,28 @@ def s_fresh_serial(P, E):
     if not stores:
         r.violate((b.nid, "serial never advanced"), "the serial counter is never incremented: every upstream gets the same key", body=b)
     return r
+
+
+def sub_live_gate(P, E):
+    """Observable::inner_subscribe runs the source only for an observer that is still subscribed
+    (so an operator never subscribes a further input on behalf of a subscription that has ended)."""
+    r = RuleResult("SUB-live-gate", "inner_subscribe runs the source only on the true edge of observer.is_subscribed()")
+    b = P.body(OBSERVABLE + "::inner_subscribe")
+    if b is None:
+        r.error("anchor missing: Observable::inner_subscribe")
+        return r
+    src_calls = [c for c in b.calls if atom(c) == "fw_call" and any(path[:1] == ("source",) for (_, _, path) in b.operand_prov(c.args[0]))]
+    gates = [c for c in b.calls if atom(c) == "is_subscribed" and all(rk == "param" and rd == 2 for (rk, rd, _) in b.operand_prov(c.args[0]))]
+    br = _branches_on_calls(b, gates)
+    dom = b.dominators()
+    r.instance((b.nid, "source call"), True, "source calls %s, gates %s" % ([c.bb for c in src_calls], [g["switch"] for g in br]))
+    if not src_calls:
+        r.error("SUB-live-gate: source call not found")
+    for c in src_calls:
+        ok = any(g["true"] in dom[c.bb] and b.pred[g["true"]] == [g["switch"]] and g["true"] != g["false"] for g in br)
+        if not ok:
+            r.violate((b.nid, "source run for a dead observer"),
+                      "inner_subscribe runs the source without checking that the observer is still subscribed: a combinator "
+                      "whose earlier input already ended the subscription (error(..).merge(&[late])) subscribes the later "
+                      "inputs anyway and nothing ever tears them down", body=b, line=c.line)
+    return r
